@@ -19,8 +19,8 @@ does on such a line:
 * `ruleFypp`     — `(^\s*# [1-9].*\".*\.(?:fypp|hypp)\"(?:\s+\d+)?\n)` → `''`
 
 `reinsertConvert` / `reinsertNewunit` model the text that `reinsert_convert_endian` /
-`reinsert_open_newunit` give the statement node of that line (single-line statements: the `&`
-continuation branch is not modelled), `effective` what the statement text is after both
+`reinsert_open_newunit` give the statement node of that line (single-line statements; `effectiveCont` adds the
+`&` continuation branch of both callbacks for a statement of several lines), `effective` what the statement text is after both
 post-processing callbacks ran in *reverse* registry order (`sanitize_ir` undoes the last rewrite first).
 
 `segments` is a Fortran free-form segmenter of one line into pieces `code ++ protected` where the
@@ -376,6 +376,68 @@ def effective (o : Out) : Line :=
     match o.info.newunit with
     | some g => reinsertNewunit g
     | none => o.text
+
+/-! ## statements continued with `&` (the continuation branch of the callbacks) -/
+
+/-- `str.find`: index of the first occurrence -/
+def findSub (pat : Line) : Line → Option Nat
+  | [] => if (litLen pat []).isSome then some 0 else none
+  | c :: cs => if (litLen pat (c :: cs)).isSome then some 0 else (findSub pat cs).map (· + 1)
+
+/-- `str.rstrip()` -/
+def rstripWs (l : Line) : Line := (l.reverse.dropWhile isWs).reverse
+
+/-- `x.rstrip().endswith('&')` -/
+def endsAmp (l : Line) : Bool :=
+  match l.reverse.dropWhile isWs with
+  | '&' :: _ => true
+  | _ => false
+
+/-- `S[S.find(part) + len(part):].rstrip()`; when `part` is not found `find` gives -1 and the slice starts at
+`len(part) - 1` (the defect class `open-continued-tail-missing`) -/
+def contTail (part S : Line) : Line :=
+  match findSub part S with
+  | some i => rstripWs (S.drop (i + part.length))
+  | none => rstripWs (S.drop (part.length - 1))
+
+/-- `reinsert_open_newunit` on a node whose source string is `S`: new text (= new source string) -/
+def newunitCont (g : NewunitGroups) (S : Line) : Line :=
+  if endsAmp g.args2 then reinsertNewunit g ++ contTail g.args2 S else reinsertNewunit g
+
+/-- `reinsert_convert_endian` on a node whose source string is `S` -/
+def convertCont (g : ConvertGroups) (S : Line) : Line :=
+  if endsAmp g.post then reinsertConvert g ++ contTail g.post S else reinsertConvert g
+
+/-- statement text after both callbacks (reverse registry order: NEWUNIT first, it also replaces the source string)
+for a statement whose first line gave `o` and whose node carries the source string `S` (all lines of the statement
+joined by newlines: the raw text when parsed through `Sourcefile`, the sanitised text through `from_source` /
+`make_complete`) -/
+def effectiveCont (o : Out) (S : Line) : Line :=
+  let S1 := match o.info.newunit with
+    | some g => newunitCont g S
+    | none => S
+  match o.info.convert with
+  | some g => convertCont g S1
+  | none => S1
+
+/-- a tail group that ends with `&` is not found in the source string when its callback runs -/
+def KnownContTailMissing (o : Out) (S : Line) : Bool :=
+  let m5 := match o.info.newunit with
+    | some g => endsAmp g.args2 && (findSub g.args2 S).isNone
+    | none => false
+  let S1 := match o.info.newunit with
+    | some g => newunitCont g S
+    | none => S
+  let m4 := match o.info.convert with
+    | some g => endsAmp g.post && (findSub g.post S1).isNone
+    | none => false
+  m5 || m4
+
+/-- join lines with `\n` -/
+def joinLines : List Line → Line
+  | [] => []
+  | [l] => l
+  | l :: ls => l ++ '\n' :: joinLines ls
 
 /-! ## segmenter -/
 
